@@ -28,6 +28,17 @@ def walk(r, nsteps, nat, lo=-4.0, hi=4.0, bits=4, stay=0.25, start=None):
     return pos
 
 
+BIG_STEPS = [2**31 - 2, 2**31 + 3, 2**32 + 5, 2**53 + 7, 2**61 + 11]
+
+
+def first_step(r, small):
+    """first step number of the job: mostly small, one time in four beyond the 32-bit / 53-bit ranges (an engine that
+    has run for long; a step counter copied into an int or a double goes wrong there)"""
+    if r.random() < 0.25:
+        return r.choice(BIG_STEPS) + r.choice([0, 1, 2, 3, 4, 5, 6])
+    return r.choice(small)
+
+
 def forces(r, nsteps, nat, bits=3):
     return [[(0.0 if r.random() < 0.15 else V.dyadic(r, -8, 8, bits=bits)) for _ in range(nat)] for _ in range(nsteps)]
 
@@ -120,7 +131,7 @@ def gen_restraint(r, k, T):
     if r.random() < 0.2:
         B.append("  outputEnergy on")
     B.append("}")
-    it0 = r.choice([0, 0, 0, 5, 12])
+    it0 = first_step(r, [0, 0, 0, 5, 12])
     M["it0"] = it0
     return {"fam": "restraint", "tags": tags, "sigtags": [m], "natoms": nv, "config": cfg + B, "it0": it0,
             "pos": walk(r, T, nv), "model": M}
@@ -161,7 +172,7 @@ def gen_histogram(r, k, T):
             cur = nxt
         pos.append(list(cur))
     return {"fam": "histogram", "tags": tags, "sigtags": sig, "collapse": "all" if sig else None, "natoms": nv,
-            "config": cfg + B, "it0": r.choice([0, 0, 7]), "pos": pos, "model": M}
+            "config": cfg + B, "it0": first_step(r, [0, 0, 7]), "pos": pos, "model": M}
 
 
 # ------------------------------------------------------------------------------------------------ extended Lagrangian
@@ -205,7 +216,7 @@ def gen_extlag(r, k, T):
     cfg = cv_block(0, width=w, lower=lo, upper=up, extra=ex)
     bias = r.choice(["harmonic", "harmonic", "moving", "none"])
     tags.append("bias=" + bias)
-    it0 = r.choice([0, 0, 3])
+    it0 = first_step(r, [0, 0, 3])
     RM = {"kind": "harmonic", "vars": [{"w": w, "per": False, "P": 1.0, "wc": 0.0}], "k0": 0.0, "centers": [0.0],
           "target_centers": [0.0], "chgc": False, "chgk": False, "dec": False, "sk": -1.0, "tk": -1.0, "lexp": 1.0,
           "sched": [], "N": 0, "nstages": 0, "equil": 0, "accw": False, "hl": False, "hu": False, "lower": [0.0],
@@ -231,7 +242,7 @@ def gen_extlag(r, k, T):
 
 def gen_mts(r, k, T):
     """multiple time stepping: variable and bias with timeStepFactor f are computed every f-th absolute step"""
-    f = r.choice([2, 3])
+    f = r.choice([2, 3, 3, 5, 6])
     ext = r.random() < 0.5
     ex = ["timeStepFactor %d" % f]
     tags = ["mts", "factor=%d" % f]
@@ -253,7 +264,7 @@ def gen_mts(r, k, T):
         cfg.append("}")
     start = [V.dyadic(r, -1.0, 1.0, bits=3)]
     return {"fam": "mts", "tags": tags, "sigtags": [], "natoms": 1, "setup": ["dt 1.0", "temperature 300.0"], "config": cfg,
-            "sleep_factor": f, "mts_extended": ext, "it0": r.choice([0, 0, 3, 4]), "pos": walk(r, T, 1, lo=-1.5, hi=1.5, bits=5, stay=0.1, start=start)}
+            "sleep_factor": f, "mts_extended": ext, "it0": first_step(r, [0, 0, 3, 4]), "pos": walk(r, T, 1, lo=-1.5, hi=1.5, bits=5, stay=0.1, start=start)}
 
 
 def gen_ti(r, k, T):
@@ -269,7 +280,7 @@ def gen_ti(r, k, T):
     tags = ["ti", "samestep" if same else "lagged", "bias=" + kind] + (["subtract"] if sub else [])
     ti = ["  writeTISamples on", "  writeTIPMF on"]
     if kind == "meta":
-        cfg += ["metadynamics {", "  name b", "  colvars v0", "  hillWeight 0.5", "  newHillFrequency %d" % r.choice([1, 2, 3]),
+        cfg += ["metadynamics {", "  name b", "  colvars v0", "  hillWeight 0.5", "  newHillFrequency %d" % r.choice([1, 2, 3, 5, 7]),
                 "  hillWidth 2.0"] + ti + ["}"]
     else:
         cfg += ["harmonic {", "  name b", "  colvars v0", "  forceConstant %r" % r.choice([0.5, 1.0, 2.0]),
@@ -278,7 +289,7 @@ def gen_ti(r, k, T):
             cfg += ["  targetCenters %r" % V.dyadic(r, -2, 2, bits=2), "  targetNumSteps %d" % r.choice([4, 8, 20])]
         cfg += ti + ["}"]
     return {"fam": "ti", "tags": tags, "sigtags": [], "natoms": 1, "setup": ["samestep %d" % (1 if same else 0), "includecv 1", "temperature 300.0"],
-            "config": cfg, "it0": r.choice([0, 0, 4]), "show_tf": True, "tf_lagged": not same,
+            "config": cfg, "it0": first_step(r, [0, 0, 4]), "show_tf": True, "tf_lagged": not same,
             "pos": walk(r, T, 1, lo=lo - 0.5, hi=lo + nx * w + 0.5, bits=3), "ef": forces(r, T, 1)}
 
 
@@ -305,7 +316,7 @@ def gen_abmd(r, k, T):
 def gen_alb(r, k, T):
     cfg = cv_block(0, width=1.0)
     B = ["alb {", "  name a", "  colvars v0", "  centers %r" % V.dyadic(r, 0.5, 2, bits=2),
-         "  updateFrequency %d" % r.choice([4, 6, 8]), "  forceRange 2.0", "}"]
+         "  updateFrequency %d" % r.choice([4, 6, 8, 10, 12, 14]), "  forceRange 2.0", "}"]
     return {"fam": "alb", "tags": ["alb"], "sigtags": [], "natoms": 1, "setup": ["temperature 300.0"], "config": cfg + B, "it0": 0,
             "pos": walk(r, T, 1, lo=0.5, hi=4, bits=3)}
 
@@ -361,7 +372,7 @@ def gen_abf(r, k, T):
         M["other"][0] = True
         M["hk"], M["hc"] = hk, hc
     return {"fam": "abf", "tags": tags, "sigtags": [], "natoms": nv, "setup": ["samestep %d" % (1 if same else 0), "includecv 1"],
-            "config": cfg + B, "it0": r.choice([0, 0, 4]), "show_tf": True, "tf_lagged": not same,
+            "config": cfg + B, "it0": first_step(r, [0, 0, 4]), "show_tf": True, "tf_lagged": not same,
             "pos": walk(r, T, nv, lo=-3.5, hi=3.5, bits=3), "ef": forces(r, T, nv), "model": M}
 
 
@@ -481,7 +492,7 @@ def gen_meta(r, k, T):
                 pos[t] = [z - 6.0 for z in pos[t]]
     return {"fam": "meta", "tags": tags, "sigtags": ["pending-hills"] if pending else [],
             "collapse": "obs" if pending else None, "natoms": nv, "setup": ["temperature 300.0"], "config": cfg + B,
-            "it0": r.choice([0, 0, 5]), "pos": pos, "model": M, "files": files}
+            "it0": first_step(r, [0, 0, 5]), "pos": pos, "model": M, "files": files}
 
 
 # ------------------------------------------------------------------------------------------------ OPES
@@ -490,7 +501,7 @@ def gen_opes(r, k, T):
     cfg = []
     for i in range(nv):
         cfg += cv_block(i, width=1.0, lower=-4.0, upper=4.0)
-    pace = r.choice([1, 2, 3])
+    pace = r.choice([1, 2, 3, 5])
     rf = r.choice([0, 1, 2, 4])     # 0: no restart schedule of the module (the engine decides when states are written)
     B = ["opes_metad {", "  name o", "  colvars " + " ".join("v%d" % i for i in range(nv)),
          "  newHillFrequency %d" % pace, "  barrier %r" % r.choice([5.0, 10.0]),
@@ -578,7 +589,7 @@ def gen_eabf(r, k, T):
     start = [lo + nx * w / 2]
     pos = walk(r, T, 1, lo=lo, hi=lo + nx * w, bits=5, stay=0.1, start=start)
     M = {"x": X, "lower": lo, "width": w, "nx": nx, "full": full, "min": mn}
-    return {"fam": "eabf", "tags": tags, "sigtags": [], "natoms": 1, "setup": setup, "config": cfg + B, "it0": r.choice([0, 0, 3]),
+    return {"fam": "eabf", "tags": tags, "sigtags": [], "natoms": 1, "setup": setup, "config": cfg + B, "it0": first_step(r, [0, 0, 3]),
             "pos": pos, "ef": forces(r, T, 1), "show_tf": True, "tf_lagged": True, "model": M}
 
 
@@ -606,7 +617,7 @@ def gen_multi(r, k, T):
          "harmonicWalls {", "  name w", "  colvars v0", "  lowerWalls -3.0", "  upperWalls 3.0", "  forceConstant 1.0",
          "  targetForceConstant 4.0", "  targetNumSteps 3", "  targetNumStages 2", "}"]
     return {"fam": "multi", "tags": ["multi", "2cv+5biases"], "sigtags": [], "natoms": 2, "setup": ["temperature 300.0"],
-            "config": cfg + B, "it0": r.choice([0, 4]), "pos": walk(r, T, 2, lo=-2.5, hi=2.5, bits=3), "shuffle": True}
+            "config": cfg + B, "it0": first_step(r, [0, 4]), "pos": walk(r, T, 2, lo=-2.5, hi=2.5, bits=3), "shuffle": True}
 
 
 FAMILIES = {"ti": gen_ti, "pabf": gen_pabf, "mts": gen_mts, "multi": gen_multi, "runave": gen_runave, "histrestraint": gen_histrestraint, "eabf": gen_eabf, "opes": gen_opes, "restraint": gen_restraint, "histogram": gen_histogram, "extlag": gen_extlag, "abmd": gen_abmd, "alb": gen_alb, "abf": gen_abf, "meta": gen_meta}
